@@ -161,7 +161,8 @@ detail::temporary_allocator_dtor_t::temporary_allocator_dtor_t() noexcept
 
 detail::temporary_allocator_dtor_t::~temporary_allocator_dtor_t() noexcept
 {
-    if (--nifty_counter == 0u && temp_stack)
+    // destroy the stacks of all threads, whether or not this thread ever had one
+    if (--nifty_counter == 0u)
         temporary_stack_list_obj.destroy();
 }
 
